@@ -17,6 +17,12 @@ Definition value_bound (parser : Z) (input : list Z) : Z :=
   else if parser <=? 3 then Z.of_nat (length input)              (* decoders: a record is at least a byte *)
   else 1.                                                          (* single-value parsers *)
 
+(* fixed allowance of a call, besides 1 KiB per input byte: encoding/gob reads a declared message
+   length in chunks of up to 10 MiB whatever the input holds (library behaviour), so the two
+   parsers that try gob get 64 MiB; every other parser gets 4 MiB (observed: under 100 KiB) *)
+Definition alloc_fixed (parser : Z) : Z :=
+  if (parser =? 0) || (parser =? 3) then 67108864 else 4194304.
+
 Definition check_fuzz : rd verdict :=
   parser <- getz ;; input <- getbytes ;; values <- getz ;; final <- getz ;; after <- getlist getz ;; alloc <- getz ;;
   let len := Z.of_nat (length input) in
@@ -24,6 +30,6 @@ Definition check_fuzz : rd verdict :=
     [ prop_ok 1 (negb (final =? 2) && forallb (fun a => negb (a =? 2)) after) [parser; values];
       prop_ok 2 (negb (final =? 3) && forallb (fun a => negb (a =? 3)) after) [parser; values; Z.of_nat (length after)];
       prop_ok 4 (negb (final =? 5) && (values <=? value_bound parser input)) [parser; values; value_bound parser input];
-      prop_ok 3 (alloc <=? 67108864 + 1024 * len) [parser; alloc; len] ]).
+      prop_ok 3 (alloc <=? alloc_fixed parser + 1024 * len) [parser; alloc; len] ]).
 
 Definition check_c16 : rd verdict := kind <- getz ;; if kind =? 1 then check_fuzz else fail.
